@@ -25,6 +25,53 @@ def sha(t):
     return hashlib.sha256(t.encode()).hexdigest()[:16]
 
 
+def lemma_canary(text):
+    """vacuity guard for the lemma library: inject `assert(false);` at the start of the body of every `proof fn` that has one
+    (axioms and trait declarations have none).  Every such proof fn must then FAIL (dev/canary.py --lemmas)."""
+    out = []
+    i = 0
+    orig = text
+    text = strip_comments(text)          # same offsets, comments blanked
+    for m in re.finditer(r'\bproof\s+fn\s+(\w+)', text):
+        if m.start() < i:
+            continue
+        # find the end of the signature: the first `{` or `;` at depth 0 after the parameter list
+        j = text.find('(', m.end())
+        if j < 0:
+            continue
+        try:
+            k = find_matching(text, j)
+        except Exception:
+            continue
+        depth = 0
+        p = k + 1
+        body = -1
+        while p < len(text):
+            ch = text[p]
+            if ch in '([':
+                depth += 1
+            elif ch in ')]':
+                depth -= 1
+            elif ch == ';' and depth == 0:
+                break
+            elif ch == '{' and depth == 0:
+                # a `{` that opens the body: preceded by the end of requires/ensures/decreases or the signature, not by `==>`/`by`/`implies`
+                pre = text[max(0, p - 300):p].rstrip()
+                if re.search(r'(\bmatch\s+[^{};]*|\bif\s+[^{};]*|\belse)$', pre):
+                    q = find_matching(text, p)
+                    p = q + 1
+                    continue
+                body = p
+                break
+            p += 1
+        if body < 0:
+            continue
+        out.append(orig[i:body + 1] + ' assert(false); /*@LCANARY %s*/ ' % m.group(1))
+        i = body + 1
+    out.append(orig[i:])
+    return ''.join(out)
+
+
 def norm_sha(t):
     """hash of source text modulo comments and white space (trusted-text lock: assumed functions, files outside the units)"""
     return sha(re.sub(r'\s+', ' ', strip_comments(t)).strip())
@@ -1172,7 +1219,8 @@ class Unit:
         # prelude (crate root level text, already containing its own verus! blocks)
         for p in cfg.get('prelude_files', []):
             out.append('// ===== prelude: %s =====' % p)
-            out.append(open(os.path.join(cfg['verif_root'], p)).read())
+            lt = open(os.path.join(cfg['verif_root'], p)).read()
+            out.append(lemma_canary(lt) if cfg.get('lemma_canary') and p.startswith('lemmas/') else lt)
         if cfg.get('traits_file'):
             out.append('// ===== traits (prelude + E10) =====')
             out.append(self.process_traits())
@@ -1221,7 +1269,8 @@ class Unit:
             out.append('pub mod voutl {\n' + STD_USE + '\n#[allow(unused_imports)] use crate::*;\nverus! {\n' + '\n'.join(helpers) + '\n} // verus!\n}')
         for p in cfg.get('postlude_files', []):
             out.append('// ===== postlude: %s =====' % p)
-            out.append(open(os.path.join(cfg['verif_root'], p)).read())
+            lt = open(os.path.join(cfg['verif_root'], p)).read()
+            out.append(lemma_canary(lt) if cfg.get('lemma_canary') else lt)
         out.append('fn main() {}')
         text = '\n'.join(out)
         prefixes = [cfg['repo_prefix']] + [o['repo_prefix'] for _, _, o in mods if o.get('repo_prefix')]
